@@ -1,5 +1,5 @@
 (* C05 — equal node hash implies equal computation (no false cache hit). *)
-From Connectome Require Import Values Attrs VM Edges EdgesGen HashSound HashFacts SpecEq EqFacts Total Examples.
+From Connectome Require Import Values Attrs VM Edges EdgesGen HashSound HashFacts SpecEq EqFacts Total GraphHashModel StaticHash MakerFacts Examples.
 Local Open Scope list_scope.
 
 (* The value of a node is the inverse reading of its node hash: for every graph without Silent arguments, every
@@ -34,6 +34,37 @@ Theorem C05_spec_level :
   exists pl, SpecG g apply raises ins WH n (SHashOut h pl) /\ SpecG g apply raises ins WC n (SVal v).
 Proof. exact sem_spec. Qed.
 Print Assumptions C05_spec_level.
+
+(* The dataset-wide edges (Filter, GroupBy, Join, Split, HashDigest; the Join switches): the static hash of the nested
+   sub-pipeline, the key function and EVERY input hash are components of the node hash - two such nodes with equal
+   hashes agree on all of them (regenerated _make_hash / _hash_graph bodies). *)
+Theorem C05_dataset_edges_hash_every_ingredient :
+  (forall s s' i i', GroupEdge_make_hash s i = GroupEdge_make_hash s' i' -> graph_hash s = graph_hash s' /\ i = i') /\
+  (forall s s' i i', GroupMapping_make_hash s i = GroupMapping_make_hash s' i' -> graph_hash s = graph_hash s' /\ i = i') /\
+  (forall s s' i i', SplitMapping_make_hash s i = SplitMapping_make_hash s' i' -> graph_hash s = graph_hash s' /\ i = i') /\
+  (forall s s' i i', JoinMapping_make_hash s i = JoinMapping_make_hash s' i' ->
+     to_key s = to_key s' /\ left_hash s = left_hash s' /\ right_hash s = right_hash s' /\ i = i') /\
+  (forall s s' i i', FilterEdge_make_hash s i = FilterEdge_make_hash s' i' -> graph_hash s = graph_hash s' /\ nth 0 i hnone = nth 0 i' hnone) /\
+  (forall s s' i i', HashDigestEdge_make_hash s i = HashDigestEdge_make_hash s' i' -> algorithm s = algorithm s' /\ return_value s = return_value s' /\ i = i') /\
+  (forall s s' i i', SwitchBranch_hash_graph s i = SwitchBranch_hash_graph s' i' -> i = i') /\
+  (forall s s' i i', SwitchMissing_hash_graph s i = SwitchMissing_hash_graph s' i' -> index s = index s' /\ i = i').
+Proof.
+  split; [exact group_edge_hash_inj|]. split; [exact group_mapping_hash_inj|]. split; [exact split_mapping_hash_inj|].
+  split; [exact join_mapping_hash_inj|]. split; [exact filter_edge_hash_inj|]. split; [exact hash_digest_hash_inj|].
+  split; [exact switch_branch_hash_inj|exact switch_missing_hash_inj].
+Qed.
+Print Assumptions C05_dataset_edges_hash_every_ingredient.
+
+(* ... and the static hash of the nested sub-pipeline (what [graph_hash] above holds) stands for the function of the
+   entry id that the sub-pipeline computes, hash-by-value wrappers included (they contribute the static hash of the
+   function they wrap) *)
+Theorem C05_nested_static_hash_sound :
+  forall apply id raises g i0,
+  (forall n e ps, nth n g Leaf = Inner e ps -> edge_ok e (List.length ps) = true /\ tables_ok e) ->
+  forall F F' n hs hd v,
+  hash_graph g [i0] F n = Some hs -> sem apply raises g [(i0, id)] F' n = Some (hd, v) -> sden apply id hs = Some v.
+Proof. exact static_sound. Qed.
+Print Assumptions C05_nested_static_hash_sound.
 
 (* The exemption, exactly: the hash of a function edge is independent of the hashes at Silent positions -- and of
    nothing else (C05_hash_sound covers the edges without Silent positions). *)
